@@ -2,6 +2,7 @@ package rules
 
 import (
 	"fmt"
+	"go/token"
 	"go/types"
 	"os"
 	"regexp"
@@ -110,6 +111,7 @@ type c06View struct {
 	exits   map[string][]string // result tuple -> list of fact-set renderings (one per exit)
 	sites   map[string][]string // effect site key -> fact-set renderings
 	calls   map[string]int
+	conds   map[string]int // branch conditions as polarity-free atoms
 	nExits  int
 	nSites  int
 	unbound []string
@@ -141,6 +143,8 @@ var c06Rewrites = []c06Rewrite{
 		"the node deserialises operator keys through a cache keyed by the key bytes (DeserializeBLSPublicKey) instead of pk.Deserialize"},
 	{"D8", "types.verifybyoperators", regexp.MustCompile(`ssv/protocol/v2/types\.DeserializeBLSPublicKey\((ssv-spec/types\.Operator\.GetPublicKey\(p4\[_\]\))\)`), "github.com/herumi/bls-eth-go-binary/bls.PublicKey.Deserialize(local:pk, $1)",
 		"the node deserialises operator keys through a cache keyed by the key bytes"},
+	{"D8", "types.verifybyoperators", regexp.MustCompile(`(github\.com/herumi/bls-eth-go-binary/bls\.PublicKey\.Deserialize\(local:pk, ssv-spec/types\.Operator\.GetPublicKey\(p4\[_\]\)\))#1`), "$1",
+		"the cached deserialiser returns (key, error), pk.Deserialize only the error"},
 	{"D5", "aggregatecommitmsgs", regexp.MustCompile(`local:ret`), "phi(nil, opaque:cycle, q.signedmessage.deepcopy(p0[_]))",
 		"the accumulator is captured by the sort closure and therefore rendered as a named local on the node side"},
 }
@@ -213,6 +217,9 @@ func c06Bind(f *ssa.Function) ([]*ens.Node, int) {
 // c06Effect: callee labels (normalised) whose call sites are compared with
 // their dominating facts.
 func c06Effect(label string) bool {
+	if label == "append" || label == "delete" || label == "copy" {
+		return true // what is collected into a result (and under which guard) is part of the behaviour
+	}
 	l := strings.ToLower(c06Norm(label))
 	for _, w := range []string{
 		"q.network.broadcast", "timeoutforround", "msgcontainer.addmsg", "msgcontainer.addfirstmsgforsignerandround",
@@ -391,7 +398,7 @@ type c06Unit struct {
 
 func (b *c06Builder) build(f *ssa.Function) *c06View {
 	c := b.c
-	v := &c06View{exits: map[string][]string{}, sites: map[string][]string{}, calls: map[string]int{}}
+	v := &c06View{exits: map[string][]string{}, sites: map[string][]string{}, calls: map[string]int{}, conds: map[string]int{}}
 	bind, _ := c06Bind(f)
 	// calls whose results only feed logging are not part of the protocol (collected over the
 	// function and its closures: a closure inherits the facts of the place it is created at)
@@ -500,6 +507,10 @@ func (b *c06Builder) build(f *ssa.Function) *c06View {
 		for _, bl := range g.Blocks {
 			for _, in := range bl.Instrs {
 				switch in := in.(type) {
+				case *ssa.If:
+					if atom := c06CondAtom(in.Cond, func(x ssa.Value) string { return sub(a.D.D(x)) }); atom != "" && !c06Noise(atom) && !strings.Contains(atom, "q.iconfig.verifysignatures(") {
+						v.conds[u.tag+atom]++
+					}
 				case ssa.CallInstruction:
 					lbl := callLabel(in.Common())
 					var n *ens.Node
@@ -567,6 +578,36 @@ func (b *c06Builder) build(f *ssa.Function) *c06View {
 		v.sites[ps.key] = append(v.sites[ps.key], b.factListRaw(ps.fs, drop, inlLabels))
 	}
 	return v
+}
+
+// c06CondAtom renders a branch condition without its polarity: a == b and
+// a != b are the same test (inverting a condition and swapping the branches is
+// behaviour-preserving), a < b and a >= b likewise, a > b and a <= b are b < a.
+// A changed operator or operand is a different atom.
+func c06CondAtom(c ssa.Value, r func(ssa.Value) string) string {
+	switch v := c.(type) {
+	case *ssa.UnOp:
+		if v.Op == token.NOT {
+			return c06CondAtom(v.X, r)
+		}
+	case *ssa.BinOp:
+		x, y := r(v.X), r(v.Y)
+		switch v.Op {
+		case token.EQL, token.NEQ:
+			if x > y {
+				x, y = y, x
+			}
+			return "test eq(" + x + ", " + y + ")"
+		case token.LSS, token.GEQ:
+			return "test lt(" + x + ", " + y + ")"
+		case token.GTR, token.LEQ:
+			return "test lt(" + y + ", " + x + ")"
+		}
+	case *ssa.Phi:
+		// short-circuit value: its operands are tested by their own branches
+		return ""
+	}
+	return "test " + r(c)
 }
 
 // factListRaw renders a fact set that is already in root terms. Facts about
@@ -823,7 +864,32 @@ func c06CompareRule(c *core.Ctx, rule, name string, nf, sf *ssa.Function) {
 		c.Decide(len(diffs) == 0, rule, "pair "+name+"|"+part.what, where, fmt.Sprintf("%d keys agree", len(ks)),
 			fmt.Sprintf("the node's %s and its ssv-spec sibling differ in %s: %s", name, part.what, strings.Join(diffs, " ;; ")))
 	}
-	// 3. call multiset
+	// 3. branch conditions (polarity-free atoms) and 4. call multiset
+	{
+		var diffs []string
+		keys := map[string]bool{}
+		for k := range nv.conds {
+			keys[k] = true
+		}
+		for k := range sv.conds {
+			keys[k] = true
+		}
+		for k := range keys {
+			if nv.conds[k] == sv.conds[k] {
+				continue
+			}
+			side := "node"
+			if nv.conds[k] < sv.conds[k] {
+				side = "spec"
+			}
+			if item := fmt.Sprintf("%s-only %s (%d vs %d)", side, k, nv.conds[k], sv.conds[k]); !c06Accepted(c, name, side, item, where) {
+				diffs = append(diffs, item)
+			}
+		}
+		sort.Strings(diffs)
+		c.Decide(len(diffs) == 0, rule, "pair "+name+"|branch conditions", where, fmt.Sprintf("%d distinct tests agree", len(keys)),
+			fmt.Sprintf("the node's %s and its ssv-spec sibling branch on different conditions: %s", name, strings.Join(diffs, " ;; ")))
+	}
 	var diffs []string
 	keys := map[string]bool{}
 	for k := range nv.calls {
